@@ -1,4 +1,5 @@
 import CssVerif.Lemmas.SheetSpecSheet
+import CssVerif.Lemmas.SheetSpecNoC
 import CssVerif.Gen.C02Margins
 /-!
 # C02: an example spelled sheet with every rule kind, and the proof that it is well formed
@@ -30,7 +31,7 @@ def blk : SBlock := { lead := [sp1], items := [(.decl dColor, [sp1]), (.semi, [s
 def sel : SSel := { first := [idt "a" 1], post := g, more := [(gc, [idt "b" 2], g)] }
 def style : SRule := .style sel blk
 def unk : List Tok := [atk "@x", sp, idt "y", sp, semi]
-def media : SRule := .media [(true, false)] g [idt "print"] gc [sp1] (.cons style [sp1] (.cons (.comment (cps "in")) [] .nil))
+def media : SRule := .media [(true, false)] g [idt "print"] gc (some (.sq, cps "nm", gc)) [sp1] (.cons style [sp1] (.cons (.comment (cps "in")) [] .nil))
 def psel : SPageSel :=
   { name := some (cps "cover"), mid := [cps "m"], pseudo := some (cps "first"), pseudoSp := [(true, false), (false, true)] }
 def mblk : SBlock := { last := some dTop }
@@ -39,10 +40,17 @@ def pblk : SPageBlock :=
     last := none }
 def page : SRule := .page [] g psel g pblk
 def href : SHref := .url [(true, false), (false, true), (true, false)] [.space] [] (some .sq) (cps "a.css")
+def vd1 : SVarDecl :=
+  { name := cps "c1", nameSp := [(true, false)], g1 := gc, g2 := gc, value := [idt "red" 7], g3 := g }
+def vd2 : SVarDecl := { name := cps "w", g2 := g, value := [num "0", sp, num "1"] }
+/-- `c1` is declared twice (the second time in upper case): the later value takes the place of the first -/
+def vd3 : SVarDecl := { name := cps "c1", nameSp := [(true, false)], g2 := g, value := [num "2"] }
+def vblk : SVarBlock := { lead := gc, items := [(vd1, gc), (vd3, [])], last := some vd2 }
 def sheet : SSheet :=
   { charset := some (.dq, cps "utf-8"), lead := [sp1],
-    imports := [(.import_ [(true, false)] g href g (some ([idt "print"], g)), [sp1])],
+    imports := [(.import_ [(true, false)] g href g (some ([idt "print"], g)) (some (.dq, cps "imp", g)), [sp1])],
     namespaces := [(.namespace_ [] g (some (cps "p", g)) (.str .dq (cps "urn:x")) [], [sp1])],
+    variables := [(.variables [(true, false)] gc vblk, [sp1]), (.comment (cps "v"), [])],
     rules := .cons style [sp1, sp1] (.cons (.unknown unk) [] (.cons media [] (.cons (.fontface [] g blk) [] (.cons page [] .nil)))) }
 
 theorem dColor_wf (O : Oracle) (h : ∀ l, O.valueOk l = true) : dColor.WF O :=
@@ -68,6 +76,39 @@ theorem blk_wf (O : Oracle) (h : ∀ l, O.valueOk l = true) : blk.WF O := by
     subst hd
     exact dTop_wf O h
 
+/-- a declaration with comments inside its value and its gaps -/
+def dCm : SDecl :=
+  { name := cps "top", nameSp := [(true, false)], g1 := gc, g2 := gc,
+    value := [num "0", commentTok (cps "v"), sp, num "1"], g3 := gc,
+    prio := some (gc, cps "important", [], gc) }
+/-- a block with comment items, a declaration with comments, a stand-alone `;` -/
+def blkCm : SBlock :=
+  { lead := [sp1], items := [(.comment (cps "k"), [sp1]), (.decl dCm, [sp1]), (.semi, []), (.comment (cps "e"), [])],
+    last := some dTop }
+
+theorem dCm_noC_wf (O : Oracle) (h : ∀ l, O.valueOk l = true) : dCm.noC.WF O :=
+  ⟨nameOk_of _ (by decide) ⟨_, _, rfl, by decide⟩,
+   ⟨core_of _ ⟨_, _, rfl, by decide⟩ ⟨[num "0", sp], _, rfl, by decide⟩, by decide, by decide⟩,
+   by intro p hp; simp [dCm, SDecl.noC, noCPrio] at hp; subst hp; exact nameOk_of _ (by decide) ⟨_, _, rfl, by decide⟩,
+   h _⟩
+
+theorem dTop_noC_wf (O : Oracle) (h : ∀ l, O.valueOk l = true) : dTop.noC.WF O :=
+  ⟨nameOk_of _ (by decide) ⟨_, _, rfl, by decide⟩,
+   ⟨core_of _ ⟨_, _, rfl, by decide⟩ ⟨[num "0", sp], _, rfl, by decide⟩, by decide, by decide⟩,
+   by intro p hp; simp [dTop, SDecl.noC, noCPrio] at hp, h _⟩
+
+theorem blkCm_noC_wf (O : Oracle) (h : ∀ l, O.valueOk l = true) : blkCm.noC.WF O := by
+  refine ⟨?_, ?_⟩
+  · intro q hq
+    simp only [blkCm, SBlock.noC, noCItems, List.mem_cons, List.mem_nil_iff, or_false] at hq
+    rcases hq with rfl | rfl
+    · exact dCm_noC_wf O h
+    · trivial
+  · intro d hd
+    simp only [blkCm, SBlock.noC, Option.map_some, Option.some.injEq] at hd
+    subst hd
+    exact dTop_noC_wf O h
+
 theorem selCore (c : List Tok) (h1 : Core (strip c)) (h2 : Quiet .default [] c = true) (h3 : nest [] c = some [])
     (h4 : Quiet .listsep [] c = true) (h5 : noBrace c = true) : SelCoreOk c := ⟨h1, ⟨h2, h3⟩, h4, h5⟩
 
@@ -87,11 +128,56 @@ theorem unk_ok : UnknownRuleOk M unk := by
   refine ⟨⟨_, _, rfl, rfl, by decide, ⟨[sp, idt "y", sp], semi, [], rfl, by decide, by decide, by decide, by decide, by decide⟩,
     by decide, by decide, by decide⟩, by decide, by decide, by decide +kernel⟩
 
+theorem sel_noC_wf : sel.noC.WF := by
+  refine ⟨selCore _ (core_of _ ⟨_, _, rfl, by decide⟩ ⟨[], _, rfl, by decide⟩) (by decide) (by decide) (by decide) (by decide),
+    ⟨_, _, rfl, by decide, by decide⟩, ?_⟩
+  intro q hq
+  simp only [sel, SSel.noC, noCMore, List.mem_cons, List.mem_nil_iff, or_false] at hq
+  subst hq
+  exact selCore _ (core_of _ ⟨_, _, rfl, by decide⟩ ⟨[], _, rfl, by decide⟩) (by decide) (by decide) (by decide) (by decide)
+
+/-- `/*c*/ a , /*c*/ b { /*k*/ TOP /*c*/ : /*c*/ 0/*v*/ 1 /*c*/ ! /*c*/ important /*c*/ ; ; /*e*/ top : 0 1 } /*e*/` -/
+def sheetCm : SSheet :=
+  { rules := .cons (.comment (cps "c")) [sp1] (.cons (.style sel blkCm) [sp1] (.cons (.comment (cps "e")) [] .nil)) }
+
+theorem sheetCm_noC_wf : sheetCm.noC.WF O M := by
+  refine ⟨?_, ?_, ?_, by decide, by decide, ?_, ?_⟩
+  · intro c hc; simp [sheetCm, SSheet.noC] at hc
+  · intro p hp; simp [sheetCm, SSheet.noC, noCImps] at hp
+  · intro p hp; simp [sheetCm, SSheet.noC, noCNss, noCImps] at hp
+  · intro p hp; simp [sheetCm, SSheet.noC, noCVars] at hp
+  · exact And.intro (show StyleWF O _ sel.noC blkCm.noC from ⟨sel_noC_wf, blkCm_noC_wf O yes_value, rfl⟩) trivial
+
 theorem mq_ok : MqOk [idt "print"] :=
   ⟨core_of _ ⟨_, _, rfl, by decide⟩ ⟨[], _, rfl, by decide⟩, ⟨by decide, by decide⟩, by decide, by decide⟩
 
+theorem vd1_wf : vd1.WF O :=
+  ⟨nameOk_of _ (by decide) ⟨_, _, rfl, by decide⟩,
+   ⟨core_of _ ⟨_, _, rfl, by decide⟩ ⟨[], _, rfl, by decide⟩, by decide, by decide⟩, ⟨_, _, rfl, by decide⟩, rfl⟩
+
+theorem vd2_wf : vd2.WF O :=
+  ⟨nameOk_of _ (by decide) ⟨_, _, rfl, by decide⟩,
+   ⟨core_of _ ⟨_, _, rfl, by decide⟩ ⟨[num "0", sp], _, rfl, by decide⟩, by decide, by decide⟩,
+   ⟨_, _, rfl, by decide⟩, rfl⟩
+
+theorem vd3_wf : vd3.WF O :=
+  ⟨nameOk_of _ (by decide) ⟨_, _, rfl, by decide⟩,
+   ⟨core_of _ ⟨_, _, rfl, by decide⟩ ⟨[], _, rfl, by decide⟩, by decide, by decide⟩, ⟨_, _, rfl, by decide⟩, rfl⟩
+
+theorem vblk_wf : vblk.WF O := by
+  refine ⟨?_, ?_⟩
+  · intro q hq
+    simp only [vblk, List.mem_cons, List.mem_nil_iff, or_false] at hq
+    rcases hq with rfl | rfl
+    · exact vd1_wf
+    · exact vd3_wf
+  · intro d hd
+    simp only [vblk, Option.some.injEq] at hd
+    subst hd
+    exact vd2_wf
+
 theorem sheet_wf : sheet.WF O M := by
-  refine ⟨?_, ?_, ?_, by decide, by decide, ?_⟩
+  refine ⟨?_, ?_, ?_, by decide, by decide, ?_, ?_⟩
   · intro c hc
     simp only [sheet, Option.some.injEq] at hc
     subst hc
@@ -99,7 +185,8 @@ theorem sheet_wf : sheet.WF O M := by
   · intro p hp
     simp only [sheet, List.mem_cons, List.mem_nil_iff, or_false] at hp
     subst hp
-    refine ⟨by show (0x5C : Nat) ∉ cps "a.css"; decide, by decide, ?_⟩
+    refine ⟨by show (0x5C : Nat) ∉ cps "a.css"; decide, by decide, ?_,
+      by intro q hq; simp only [Option.some.injEq] at hq; subst hq; show (0x5C : Nat) ∉ cps "imp"; decide⟩
     intro q hq
     simp only [Option.some.injEq] at hq
     subst hq
@@ -112,9 +199,15 @@ theorem sheet_wf : sheet.WF O M := by
     simp only [Option.some.injEq] at hq
     subst hq
     exact ⟨_, _, rfl, by decide⟩
+  · intro p hp
+    simp only [sheet, List.mem_cons, List.mem_nil_iff, or_false] at hp
+    rcases hp with rfl | rfl
+    · exact vblk_wf
+    · trivial
   · refine And.intro (show StyleWF O _ sel blk from style_wf _) (And.intro (show UnknownRuleOk M unk from unk_ok)
-      (And.intro (show MqOk _ ∧ O.mediaOk _ = true ∧ SRules.WF O M _ true _ from
-          ⟨mq_ok, rfl, show StyleWF O _ sel blk from style_wf _, trivial, trivial⟩)
+      (And.intro (show MqOk _ ∧ O.mediaOk _ = true ∧ SRules.WF O M _ true _ ∧ NameWF _ from
+          ⟨mq_ok, rfl, ⟨show StyleWF O _ sel blk from style_wf _, trivial, trivial⟩,
+            by intro q hq; simp only [Option.some.injEq] at hq; subst hq; show (0x5C : Nat) ∉ cps "nm"; decide⟩)
         (And.intro (show false = false ∧ blk.WF O from ⟨rfl, blk_wf O yes_value⟩) (And.intro ?_ trivial))))
     show PageWF O M psel pblk
     refine ⟨⟨?_, ?_⟩, ?_, ?_, by decide⟩
